@@ -30,6 +30,8 @@ for P in $PROPS; do
   echo "$L" > $OUT/check_$P.txt
 done
 git -C /repo checkout -- . 
+# the runs above were made on a deliberately broken tree: do not leave their evidence / replay files behind
+git -C /verif checkout -- evidence 2>/dev/null
 python3 - <<PY
 import json
 json.dump({"seed": "$ID", "worktree_checks": {"build": "$BUILD", "demo_with_change": "$WITH", "demo_without_change": "$WITHOUT", "suite_with_change": "$SUITE"},
